@@ -622,11 +622,11 @@ func (g *gen) bytesOf(st *State, s string) string {
 func (g *gen) strToBytes(n *node, st *State, s string) string {
 	g.c.declareSort("Bytes")
 	g.c.declareFun("s2b", []string{"Str"}, "Bytes")
-	g.c.declareFun("blen", []string{"Bytes"}, "Int")
+	g.c.declareFun("u_blen", []string{"Bytes"}, "Int")
 	id := g.alloc(n, st)
 	m := g.svGet(st, "$bytes", "(Array Int Bytes)")
 	g.svAssign(n, st, "$bytes", "(Array Int Bytes)", app("store", m, id, app("s2b", s)))
-	n.assume(app("=", app("blen", app("s2b", s)), app("strlen", s)))
+	n.assume(app("=", app("u_blen", app("s2b", s)), app("strlen", s)))
 	return app("mkslice", id, "0", app("strlen", s), app("strlen", s))
 }
 
@@ -1043,6 +1043,8 @@ func (g *gen) zeroGhostFields(n *node, st *State, ref string, t types.Type) {
 			z = "((as const " + xt.S + ") false)"
 		case xt.K != nil:
 			continue // contents of an empty map are irrelevant
+		case xt.S == "Bytes":
+			z = g.c.declareConst("u_bempty", "Bytes")
 		default:
 			z = zeroOfSort(xt.S)
 		}
